@@ -405,6 +405,14 @@ func markNoBadABI(c *GCase) {
 }
 
 func runJSON(c *GCase, url string) (obs Obs, seen []Block) {
+	return runWithClient(jrpc2.New(url), c, url)
+}
+
+// runWithClient: Filter() -> cl.Get -> Insert for one integration; cl may be a
+// caching client shared with other integrations.  Insert receives a copy of the
+// returned blocks whose transactions and logs are in index order (the client
+// assembles them in map / arrival order, and cached blocks are shared).
+func runWithClient(cl *jrpc2.Client, c *GCase, url string) (obs Obs, seen []Block) {
 	defer func() {
 		if r := recover(); r != nil {
 			obs = Obs{Outcome: "panic", Msg: fmt.Sprint(r)}
@@ -415,16 +423,19 @@ func runJSON(c *GCase, url string) (obs Obs, seen []Block) {
 		return Obs{Outcome: "err", Msg: err.Error()}, nil
 	}
 	gf := ig.Filter()
-	cl := jrpc2.New(url)
 	ctx := wctx.WithChainID(wctx.WithSrcName(context.Background(), c.Src), c.Chain)
 	start := c.Blocks[0].Num
-	blocks, err := cl.Get(ctx, url, &gf, start, uint64(len(c.Blocks)))
+	got, err := cl.Get(ctx, url, &gf, start, uint64(len(c.Blocks)))
 	if err != nil {
 		return Obs{Outcome: "err", Msg: "client.Get: " + err.Error()}, nil
 	}
-	// the client assembles transactions in map order when they come from
-	// eth_getLogs; put them in index order so that the run is reproducible
-	for i := range blocks {
+	blocks := make([]eth.Block, len(got))
+	for i := range got {
+		blocks[i].Header = got[i].Header
+		blocks[i].Txs = make(eth.Txs, len(got[i].Txs))
+		for j := range got[i].Txs {
+			copyTx(&blocks[i].Txs[j], &got[i].Txs[j])
+		}
 		txs := blocks[i].Txs
 		sort.SliceStable(txs, func(a, b int) bool { return txs[a].Idx < txs[b].Idx })
 	}
@@ -443,6 +454,19 @@ func runJSON(c *GCase, url string) (obs Obs, seen []Block) {
 		obs.Rows = append(obs.Rows, row)
 	}
 	return obs, seen
+}
+
+// copyTx copies the exported fields (the struct holds a mutex)
+func copyTx(dst, src *eth.Tx) {
+	dst.Receipt = src.Receipt
+	dst.Receipt.Logs = append(eth.Logs(nil), src.Receipt.Logs...)
+	sort.SliceStable(dst.Receipt.Logs, func(a, b int) bool { return dst.Receipt.Logs[a].Idx < dst.Receipt.Logs[b].Idx })
+	dst.Idx, dst.Type, dst.ChainID, dst.Nonce, dst.GasPrice, dst.GasLimit = src.Idx, src.Type, src.ChainID, src.Nonce, src.GasPrice, src.GasLimit
+	dst.From, dst.To, dst.Value, dst.Data = src.From, src.To, src.Value, src.Data
+	dst.V, dst.R, dst.S = src.V, src.R, src.S
+	dst.TraceActions = append([]eth.TraceAction(nil), src.TraceActions...)
+	dst.MaxPriorityFeePerGas, dst.MaxFeePerGas = src.MaxPriorityFeePerGas, src.MaxFeePerGas
+	dst.PrecompHash = src.PrecompHash
 }
 
 var _ = big.NewInt
